@@ -10,7 +10,7 @@ CLAIMS = {
     'C01': ("R-table/R-sib/R-dom (narrow): layer twins of builder and reader agree by construction (mode / compression / chunk-size tables, length partitions, single derivations, R-len of message packets, stage machines cannot end early); byte-exact round trip over all lengths not decided", "§5 C01 / §11.10"),
     'C02': ("R-dom/R-sib/R-table over MIR: every accept path of every verifier evaluates prefix check, type binding, issuer match, version alignment, back-signature, then the primitive", "§5 C02"),
     'C03': ("R-dom/R-who over MIR: a clean end-of-stream is reachable only through the MDC comparison / final AEAD tag; check-first releases nothing before Done", "§5 C03"),
-    'C04': ("R-panic/R-rec over MIR: every panic-capable site on hostile paths is tactic-discharged or in the reviewed baseline; focus set must be discharged", "§5 C04"),
+    'C04': ("R-panic/R-rec over MIR: every panic-capable site is proved safe by a zone (difference-bound) abstract interpretation of its body or an exact constant argument, or is in the reviewed baseline (with a guard ratchet); the discharger is calibrated against ok/bad cases on every run; recursion inventoried, depth guards, poison states, input loops", "§5 C04 / §11.12"),
     'C05': ("R-len (symbolic write_len vs to_writer), R-table (inverse code tables), header-length derivation", "§5 C05"),
     'C06': ("R-sib/R-seq (narrow): sign/verify twins feed the same frame sequence, one text-mode selection, streaming canonicaliser adds nothing at end of input; equality of canonicalisers on all inputs not decided", "§5 C06 / §11.8"),
     'C07': ("R-dom/origin: signing-capable subkeys get an embedded back-signature; builder validation dominates build", "§5 C07"),
